@@ -100,6 +100,12 @@ def cases(ctx):
             out.append(dict(op='norm', t=b))
             out.append(dict(op='eq', a=a, b=b))
             out.append(dict(op='eq', a=rest + [numitem(k1, 1)], b=a))
+    for k1 in ('-1', '-1d', '-2', '-2f'):
+        for rest in ([elitem('x', 1)], [elitem('y', -1), elitem('x', 1)], [elitem('kx', 2)]):
+            for n in (-4, -2, -3, 2):
+                out.append(dict(op='pow', a=[numitem(k1, 1)] + rest, n=n))
+            out.append(dict(op='make', t=[numitem(k1, -2)] + rest))
+            out.append(dict(op='make', t=rest + [numitem(k1, -2)]))
     # an int factor divided / multiplied by an int: the quotient is exact, never a float
     for kk in ('2', '3i', '7i', '-2'):
         for rest in ([elitem('x', 1)], [elitem('y', -2)], [elitem('kx', 1)]):
